@@ -355,7 +355,7 @@ package websocket
 //@ ensures [dict-released-only] lr.c.msgReader.dict == old(lr.c.msgReader.dict) || lr.c.msgReader.dict == nil
 //@ ensures [dict-buf-kept] lr.c.msgReader.dict != nil ==> gvcSameSlice(lr.c.msgReader.dict.buf, old(lr.c.msgReader.dict.buf))
 //@ ensures [readmu-released-only-closed] {C05} !gvcHeld(lr.c.readMu.ch) ==> gvcClosed(lr.c.closed) || !old(gvcHeld(lr.c.readMu.ch))
-//@ ensures [ok-keeps] {C18 C19} (result1 == nil || result1 == io.EOF || result1 == io.ErrUnexpectedEOF) && old(lr.c.br != nil) ==> connOpen(lr.c) && lr.c.br == old(lr.c.br) && gvcHeld(lr.c.readMu.ch) == old(gvcHeld(lr.c.readMu.ch))
+//@ ensures [ok-keeps] {C18 C19 C08} (result1 == nil || result1 == io.EOF || result1 == io.ErrUnexpectedEOF) ==> connWritable(lr.c) && lr.c.br == old(lr.c.br) && gvcHeld(lr.c.readMu.ch) == old(gvcHeld(lr.c.readMu.ch))
 //@ ensures [err-not-complete] {C18 C19} (errIs(result1, io.EOF) || errIs(result1, io.ErrUnexpectedEOF)) && result1 != io.EOF && result1 != io.ErrUnexpectedEOF ==> !(lr.c.msgReader.fin && lr.c.msgReader.payloadLength == 0)
 
 //@ func (*msgReader).Read
@@ -374,7 +374,10 @@ package websocket
 //@ ensures [budget] {C08} old(mr.limitReader.n) > 0 ==> int64(n) <= old(mr.limitReader.n) && mr.limitReader.n == old(mr.limitReader.n)-int64(n)
 //@ ensures [exhausted-fails] {C08} old(mr.limitReader.n) == 0 ==> n == 0 && err != nil && !errIs(err, io.EOF)
 //@ ensures [unlimited] {C08} old(mr.limitReader.n) < 0 ==> mr.limitReader.n == old(mr.limitReader.n)
-//@ ensures [ok-keeps] {C18 C19} (err == nil || err == io.EOF) && old(mr.c.br != nil) ==> connOpen(mr.c) && mr.c.br == old(mr.c.br) && !gvcHeld(mr.c.readMu.ch)
+//@ ensures [limit-complete] {C08} err == io.EOF && old(mr.limitReader.n) > 0 ==> mr.limitReader.n > 0
+//@ ensures [one-over-closes-1009] {C08} gvcCalls("(*Conn).writeError") <= 1 && (gvcCalls("(*Conn).writeError") == 1 ==> gvcCallArg[StatusCode]("(*Conn).writeError", 1) == StatusMessageTooBig && err != nil && !errIs(err, io.EOF) && mr.limitReader.n == 0)
+//@ note [limit-complete]: the limit reader is armed with limit+1 bytes; a message is reported complete only if that one byte of look-ahead was not used, i.e. it has at most limit bytes
+//@ ensures [ok-keeps] {C18 C19} (err == nil || err == io.EOF) ==> connWritable(mr.c) && mr.c.br == old(mr.c.br) && !gvcHeld(mr.c.readMu.ch)
 //@ ensures [flate-reader-released] {C07} err == io.EOF ==> mr.flateReader == nil
 
 // ---------------------------------------------------------------------------
